@@ -20,6 +20,7 @@ structure StudyInv (maxT : Option Nat) (st : Study) (a : Algo) : Prop where
     ∀ t' ∈ st.trials, t'.completed = true → t'.infeasible = false →
       ∀ r' r, t'.final = some r' → t.final = some r → r' ≤ r
   bestNone : st.best = none → ∀ t ∈ st.trials, t.completed = true → t.infeasible = true
+  spaceBound : ∀ sp, a.space = some sp → a.numProposals ≤ sp
 
 theorem StudyInv.nodup {m st a} (h : StudyInv m st a) : (st.trials.map (·.id)).Nodup := ids_nodup h.ids
 
@@ -49,6 +50,7 @@ theorem isPending_elim {st : Study} {k : Nat} (h : st.isPending k = true) :
 /-! ### create_trial -/
 
 theorem StudyInv.create {m st a} (h : StudyInv m st a) (g : Nat) (hex : exhausted m st = false)
+    (hnx : a.spaceExhausted = false)
     (hlat : ∀ k, st.latest g = some k → st.isPending k = false) :
     StudyInv m (st.create g) a.propose := by
   have hn := h.nodup
@@ -116,6 +118,11 @@ theorem StudyInv.create {m st a} (h : StudyInv m st a) (g : Nat) (hex : exhauste
     rcases ht with ht | rfl
     · exact h.bestNone hb t ht hc
     · simp [newTrial] at hc
+  · intro sp hsp
+    simp only [Algo.propose] at hsp ⊢
+    have := h.spaceBound sp hsp
+    simp only [Algo.spaceExhausted, hsp, decide_eq_false_iff_not] at hnx
+    omega
 
 /-! ### updates that keep id, group, status, infeasible and final (e.g. adding a measurement) -/
 
@@ -173,6 +180,7 @@ theorem StudyInv.updCore {m st a} (h : StudyInv m st a) (k : Nat) (f : Trial →
   · intro hb x hx hxc
     obtain ⟨y, hy, -, -, e3, e4, -⟩ := core x hx
     rw [e4]; exact h.bestNone hb y hy (e3 ▸ hxc)
+  · exact h.spaceBound
 
 /-! ### done / skip: the status transition of a pending trial followed by `_complete_trial` -/
 
@@ -318,6 +326,7 @@ theorem StudyInv.finish {m st a} (h : StudyInv m st a) {t : Trial} (ht : t ∈ s
       rcases memU x hx with rfl | ⟨hy, -⟩
       · exact hfi
       · exact h.bestNone hb x hy hxc
+    · exact h.spaceBound
   | false =>
     simp only [Bool.false_eq_true, if_false]
     -- facts about `better`
@@ -388,6 +397,7 @@ theorem StudyInv.finish {m st a} (h : StudyInv m st a) {t : Trial} (ht : t ∈ s
           · obtain ⟨b0, hb0, -⟩ := hold h1
             rw [h1, hb0] at hb; cases hb
           · rw [h1] at hb; exact h.bestNone hb x hy hxc
+      · intro sp hsp; exact h.spaceBound sp hsp
     -- now the two outcomes of `better`
     cases hbt : Study.better { st with trials := updTrial t.id f st.trials, numCompleted := st.numCompleted + 1,
                                        numPending := st.numPending - 1 } (f t) with
